@@ -267,6 +267,12 @@ def account(pid, fam, case, verdict, ev):
         elif pid == "C03":
             if case.get("errs"):
                 ev["nontrivial"].add(case["id"])
+            info = verdict.get("info") or []
+            if info and len(info) > 1:
+                zs = info[1].values() if isinstance(info[1], dict) else info[1]
+                for z in zs:
+                    if z and case.get("stratum") == "zeroSyndromesWithin":
+                        ev.setdefault("x_leading_zero_syndromes_within_capacity", collections.Counter())[str(z)] += 1
         else:
             info = verdict.get("info") or []
             if info and not info[0]:
